@@ -427,7 +427,7 @@ def describe(k):
     import kapture
     d = {p: None for p in PART_NAMES}
     if k.sensors is not None:
-        d['sensors'] = {sid: {'type': s.sensor_type, 'params': [str(x) for x in s.sensor_params], 'name': s.name}
+        d['sensors'] = {sid: {'type': s.sensor_type, 'params': [str(x) for x in s.sensor_params], 'name': s.name or ''}
                         for sid, s in k.sensors.items()}
     if k.rigs is not None:
         d['rigs'] = {rid: {dev: desc_pose(p) for dev, p in members.items()} for rid, members in k.rigs.items()}
